@@ -164,16 +164,28 @@ def build_fn(repo, f):
     lines = body.split('\n')
     used = set()
 
+    captured = {}
+
     def find_line(anchor, strip_brace=False):
+        """anchor = exact stripped source line, or `~ <regex>` matched against the whole stripped line; named groups of a
+        regex anchor are available in the inserted texts as ${name} (so that a renamed local does not lose the anchor)"""
         hits = []
+        rx = re.compile(anchor[2:].strip()) if anchor.startswith('~ ') else None
         for k, l in enumerate(lines):
             t = l.strip()
             if strip_brace and t.endswith('{'):
                 t = t[:-1].strip()
-            if t == anchor and k not in used:
+            if rx is not None:
+                m = rx.fullmatch(t)
+                if m and k not in used:
+                    hits.append(k)
+                    last = m
+            elif t == anchor and k not in used:
                 hits.append(k)
         if len(hits) != 1:
             raise WeaveError('anchor lost in %s::%s: line `%s` found %d times' % (f['owner'], f['fn'], anchor, len(hits)))
+        if rx is not None:
+            captured.update(last.groupdict())
         return hits[0]
 
     # resolve all anchors against the pristine body first
@@ -219,6 +231,14 @@ def build_fn(repo, f):
             out_lines[k] = ins['text'] + '\n' + l
         elif kind == 'after':
             out_lines[k] = l + '\n' + ins['text']
+    def subst(t):
+        for k_, v_ in captured.items():
+            t = t.replace('${%s}' % k_, v_)
+        if re.search(r'\$\{\w+\}', t):
+            raise WeaveError('anchor lost in %s::%s: unresolved placeholder %s' % (f['owner'], f['fn'], re.search(r'\$\{\w+\}', t).group(0)))
+        return t
+    out_lines = [subst(x) for x in out_lines]
+    f = dict(f, contract=subst(f['contract']), start=subst(f['start']))
     new_sig = transform_signature(sig, f['ret'])
     text = new_sig + '\n' + f['contract'] + '\n{\n' + (f['start'] + '\n' if f['start'] else '') + '\n'.join(out_lines) + '}\n'
     return text, weave.sha(item), item
